@@ -249,7 +249,10 @@ package actor
 // ONE OnKilled (system message) per watcher entry and one to the parent, ONE ActorKilledEvent
 //@ func (*killedHandler).cleanupIfNotRestarting
 //@   requires ctxwf(h.ctx) && (h.shouldContinue ==> h.selfKilledMessage != nil)
-//@   modifies gmap(told), gmap(toldn), gmap(tells), gmap(unregistered), gmap(unsuball), gmap(published)
+//@   modifies gmap(told), gmap(toldn), gmap(tells), gmap(unregistered), gmap(unsuball), gmap(published), gmap(resumes)
+// C03 ("stopped by its supervisor while paused"): an actor that terminates does not leave its mailbox paused - the
+// user mail parked in it must still reach HandleEnvelop, where it becomes dead letters
+//@   ensures  old(h.shouldContinue) && !old(h.restarting) ==> gcount(resumes, h.ctx.mailbox) > old(gcount(resumes, h.ctx.mailbox))
 //@   requires forall p string :: p in h.ctx.watchers ==> h.ctx.watchers[p] != nil
 //@   ensures  !(old(h.shouldContinue) && !old(h.restarting)) ==>
 //@            (forall r vivid.ActorRef, k mathint :: gcount(told, r, k) == old(gcount(told, r, k))) &&
@@ -268,6 +271,7 @@ package actor
 //@   ensures  forall k mathint :: k != kKilledSys() ==> gcount(toldn, k) == old(gcount(toldn, k))
 //@   ensures  forall t mathint :: t != tagof("ves.ActorKilledEvent") ==> gcount(published, t) == old(gcount(published, t))
 //@ loop (*killedHandler).cleanupIfNotRestarting#1
+//@   invariant forall m vivid.Mailbox :: gcount(resumes, m) == old(gcount(resumes, m))
 //@   invariant gcount(toldn, kKilledSys()) == old(gcount(toldn, kKilledSys())) + seencount()
 //@   invariant forall p string :: seen(p) ==> p in h.ctx.watchers && gcount(told, h.ctx.watchers[p], kKilledSys()) > old(gcount(told, h.ctx.watchers[p], kKilledSys()))
 //@   invariant forall r vivid.ActorRef, k mathint :: k != kKilledSys() ==> gcount(told, r, k) == old(gcount(told, r, k))
